@@ -285,8 +285,10 @@ class Make:
         late = set()        # edges dirty only because cf_dyndep_restat_late judged them without restat
 
         def mtime(n):
+            # (an alias stands for the files behind it even when a file or directory happens to carry its name: the newest
+            # of them all counts)
             if n in files:
-                return files[n]['m']
+                return max(files[n]['m'], node_mtime.get(n, 0))
             return node_mtime.get(n, 0)
 
         def visit(n, dependent):
@@ -364,8 +366,7 @@ class Make:
                     dirty, reason = True, 'phony without inputs, file missing'
                 for o in all_outs(e):
                     node_dirty[o] = dirty
-                    if o not in files:
-                        node_mtime[o] = m
+                    node_mtime[o] = m
                 state[k] = dict(dirty=dirty, must=dirty, m=m, reason=reason)
             else:
                 state[k] = dict(dirty=dirty or own, must=own, m=m, reason=own_reason if own else reason)
